@@ -117,8 +117,23 @@ def canonical_json_bytes(obj: Any) -> bytes:
             default=_json_default,
         ).encode("utf-8")
     except Exception:  # pragma: no cover - defensive
-        # Last resort: not ideal for hashing, but better than failing
-        return repr(obj).encode("utf-8")
+        # Last resort: not ideal for hashing, but better than failing. Mappings
+        # are rendered in sorted key order so that equal content still gives
+        # equal bytes whatever the insertion order was.
+        return _stable_repr(obj).encode("utf-8")
+
+
+def _stable_repr(o: Any) -> str:
+    """``repr``-like text that does not depend on mapping insertion order."""
+    if isinstance(o, dict):
+        items = sorted(((_stable_repr(k), _stable_repr(v)) for k, v in o.items()))
+        return "{" + ",".join(f"{k}:{v}" for k, v in items) + "}"
+    if isinstance(o, (list, tuple)):
+        return "[" + ",".join(_stable_repr(x) for x in o) + "]"
+    try:
+        return repr(o)
+    except Exception:  # pragma: no cover - defensive
+        return f"<unrepresentable {type(o).__name__}>"
 
 
 def _json_default(o: Any):
@@ -136,6 +151,12 @@ def _json_default(o: Any):
     if hasattr(o, "to_json") and callable(getattr(o, "to_json")):
         try:
             return o.to_json()
+        except Exception:  # pragma: no cover - defensive
+            pass
+    if hasattr(o, "tolist") and callable(getattr(o, "tolist")):
+        # numpy arrays and scalars (and pandas objects exposing the same API)
+        try:
+            return o.tolist()
         except Exception:  # pragma: no cover - defensive
             pass
     if hasattr(o, "__dict__"):
